@@ -675,7 +675,14 @@ func (d *V2) search(cmd, shape *Cmd, lek map[string]types.AttributeValue) (o Out
 
 func (d *V2) batchWrite(cmd *Cmd) (o Outcome) {
 	req := map[string][]types.WriteRequest{}
+	same := map[string]types.WriteRequest{} // identical puts share one PutRequest, as a caller reusing it would
 	for i, r := range cmd.Batch {
+		if r.Put != nil && !r.Both {
+			if w, ok := same[r.Put.Canon()]; ok {
+				req[r.T] = append(req[r.T], w)
+				continue
+			}
+		}
 		var w types.WriteRequest
 		if r.Put != nil || r.Both {
 			it := itemToV2(r.Put)
@@ -686,6 +693,9 @@ func (d *V2) batchWrite(cmd *Cmd) (o Outcome) {
 			k := itemToV2(r.Del)
 			w.DeleteRequest = &types.DeleteRequest{Key: k}
 			d.keepIn(cmd.ID, fmt.Sprintf("batch[%d].Key", i), k)
+		}
+		if r.Put != nil && !r.Both {
+			same[r.Put.Canon()] = w
 		}
 		req[r.T] = append(req[r.T], w)
 	}
